@@ -23,7 +23,7 @@ RULE = ('Hypothesis draws a property package (15 CHO chemicals with gas+liquid m
         'phases; (adiabatic) Hnet_after = Hnet_before + Q within 100*C*T_tol, Q drawn as 0 (with ballast) or '
         'computed for a target outlet T in 250-600 K. Non-trivial: |heat released| > 1 kJ/hr (dH clause: '
         '|dH| > 1 J/mol and X > 0). Distinct by (clause, structure, participants, signs, reactants, basis, '
-        'phases, package, mode).')
+        'phases, package, mode, zero pattern of the feed); raw floats (flows, X, T, Q) are not part of the key.')
 ASSUMPTIONS = [
     'stoichiometries are exactly balanced in rational arithmetic; only chemicals with a database Hf',
     'ideal mixture without excess enthalpy (library default), so stream H = sum n_i H_i(phase,T,P)',
@@ -296,9 +296,9 @@ def check_material(ctx, case, s, site, region):
     want = np.where(case['ref_out'] < 0, 0.0, case['ref_out'])
     sc = max(1.0, float(np.abs(case['feed']).sum()))
     err = float(np.abs(got - want).max()) if got.shape == want.shape else float('inf')
-    ctx.metric_max(f'{site}.material:rel_err', err / sc)
     if not err <= MAT * sc:
         ctx.fail(f'{site}.material|{region}|mismatch', f'flows differ from the reference by {err!r} (scale {sc!r})')
+    ctx.metric_max(f'{site}.material:rel_err', err / sc)
 
 
 def cells(ctx, pre, case):
@@ -318,7 +318,7 @@ def prop_dH(ch, ctx):
     pkg = ch.choice('pkg', ['GL', 'LQ', 'LK'])
     tagged = ch.bool('tagged') and pkg != 'LK'
     basis = ch.choice('basis', ['mol', 'wt'])
-    kind = ch.choice('kind', ['rxn', 'rxn', 'par_iter', 'par_index', 'ser_iter', 'ser_index', 'slice'])
+    kind = ch.choice('kind', ['rxn', 'rxn', 'rxn', 'par_iter', 'par_index', 'ser_iter', 'ser_index', 'slice'])
     th = R.thermo(pkg)
     tmo.settings.set_thermo(th)
     chems = list(th.chemicals)
@@ -481,7 +481,7 @@ def prop_iso(ch, ctx):
     if abs(want_dHnet) > 1.0:
         ctx.cell('iso:nontrivial')
         ctx.nontriv(['iso', case['pkg'], case['basis'], case['phases'], case['xpkg'], case['mode'],
-                     T == R.T_REF, struct_key(case['struct'])])
+                     T == R.T_REF, struct_key(case['struct']), (case['feed'] != 0).astype(int).tolist()])
 
 
 # ---------------------------------------------------------------------------
@@ -571,7 +571,7 @@ def prop_adiabatic(ch, ctx):
     if abs(heat) > 1.0:
         ctx.cell('adb:nontrivial')
         ctx.nontriv(['adb', case['pkg'], case['basis'], phases, case['xpkg'], case['mode'], qmode,
-                     struct_key(case['struct'])])
+                     struct_key(case['struct']), (feed != 0).astype(int).tolist()])
 
 
 def setup(ctx):
